@@ -2,7 +2,7 @@
 # confirm_seed.sh <ID> <k> : re-run, in the scratch worktree /tmp/seed/<ID>, the three facts a seeded change must satisfy:
 #   (1) with the change the repository builds and all 83 tests pass, (2) the demonstration fails with the change,
 #   (3) the demonstration passes without it.  Writes seeded/<ID>-<k>/confirm.json and copies the seed files.
-ID=$1; K=$2; WT=/tmp/seed/$ID; OUT=$WT/OUT/$K; DST=/verif/seeded/$ID-$K
+ID=$1; K=$2; WT=${SEEDROOT:-/tmp/seed}/$ID; OUT=$WT/OUT/$K; DST=/verif/seeded/$ID-${DSTK:-$K}
 [ -f $OUT/patch.diff ] || { echo "no patch"; exit 2; }
 cd $WT || exit 2
 git checkout -q -- . ; git apply $OUT/patch.diff || { echo "patch does not apply"; exit 2; }
@@ -15,9 +15,9 @@ $OUT/run_demo.sh $WT $WT/_build > $WT/demo_without.log 2>&1; d0=$?
 mkdir -p $DST; cp -r $OUT/* $DST/ 2>/dev/null; rm -f $DST/demo $DST/*.o
 ok=false; [ $pass -eq 83 ] && [ -z "$failed" ] && [ $d1 -ne 0 ] && [ $d0 -eq 0 ] && ok=true
 cat > $DST/confirm.json <<J
-{"seed": "$ID-$K", "confirmed": $ok, "tests_passed_with_change": $pass, "test_binaries_failed_with_change": "$failed",
+{"seed": "$ID-${DSTK:-$K}", "confirmed": $ok, "tests_passed_with_change": $pass, "test_binaries_failed_with_change": "$failed",
  "demo_exit_with_change": $d1, "demo_exit_without_change": $d0,
  "ran": "git apply patch.diff; ninja -C _build; all _build/bin/*Tests; run_demo.sh <worktree> <builddir>; git checkout -- .; ninja; run_demo.sh",
  "worktree_head": "$(git rev-parse --short HEAD)"}
 J
-echo "$ID-$K confirmed=$ok tests=$pass failed='$failed' demo_with=$d1 demo_without=$d0"
+echo "$ID-${DSTK:-$K} confirmed=$ok tests=$pass failed='$failed' demo_with=$d1 demo_without=$d0"
